@@ -213,11 +213,14 @@ def _expand_pool_units(us, tier):
 
 def unit_weight(u):
     if u["part"] == "pool":
-        return (1000 if u.get("bound") == 2 else 10) + sum(len(SUB[c]) for c in u["family"])
+        return (3000 if u.get("bound") == 2 else 10) + sum(len(SUB[c]) for c in u["family"])
     if u["part"] == "history-pool":
         return 10 + len(HIST_FAMILIES[u["family"]][0])
     if u["part"] == "history":
         return 2000         # a fraction of a second each: run first, so a wall-clock cap on a loaded machine never drops the dimension
+    if u["part"] in ("typed", "order+hash"):
+        return 1500         # the broad serial dimensions next (same reason): when the cap hits, what is dropped is the tail of
+                            # the pooled explorations, not a whole dimension (the long bound-2 units of thorough still start first)
     return 1
 
 
